@@ -1,5 +1,7 @@
 // alg.h - shared by the algebra monitors (C01 C02 C03 C06 C11 C12 C13)
 #pragma once
+#include <memory>
+#include <cstring>
 #include <SQuIDS/SUNalg.h>
 #include <gsl/gsl_matrix.h>
 #include <gsl/gsl_complex_math.h>
@@ -103,6 +105,20 @@ inline bool all_finite(const Vec& v) { for (double x : v) if (!std::isfinite(x))
 inline bool all_finite(const SU_vector& v) { for (unsigned i = 0; i < v.Size(); i++) if (!std::isfinite(v[i])) return false; return true; }
 
 inline SU_vector make(const Vec& c) { return SU_vector(c); }
+// a vector that lives in storage supplied by the user (exact size: a stray access is a heap overflow), as the
+// solver's state vectors do; the algebra must not care who owns the components
+struct ExtVec {
+  std::unique_ptr<double[]> buf; size_t n; SU_vector v;
+  ExtVec(const Vec& c, int d) : buf(new double[c.size()]), n(c.size()), v((unsigned)d, buf.get()) { std::copy(c.begin(), c.end(), buf.get()); }
+  ExtVec(const ExtVec&) = delete;
+  bool bound() const { return v.Dim() && &v[0] == buf.get(); }
+  Vec image() const { return Vec(buf.get(), buf.get() + n); }
+};
+inline bool same_bits(const SU_vector& x, const SU_vector& y) {
+  if (x.Dim() != y.Dim()) return false;
+  for (unsigned k = 0; k < x.Size(); k++) if (!(x[k] == y[k]) && !(std::isnan(x[k]) && std::isnan(y[k]))) return false;   // +0 and -0 are the same component value
+  return true;
+}
 inline ref::Mat M(const SU_vector& v) { return ref::from_components((int)v.Dim(), v.GetComponents()); }
 inline ref::Mat M(int d, const Vec& c) { return ref::from_components(d, c); }
 
